@@ -435,6 +435,11 @@ func (c *client) provide(outs []interface{}) error {
 }
 
 func (c *client) makeOutChan(ctx context.Context, ftyp reflect.Type, valOut int) (func() reflect.Value, makeChanSink) {
+	if ctx == nil {
+		// a channel-returning function without a context parameter: the
+		// subscription lasts until the other side or the connection ends it
+		ctx = context.Background()
+	}
 	retVal := reflect.Zero(ftyp.Out(valOut))
 	// retVal is written by the frame executor (chCtor) and read by the calling goroutine, which may
 	// have been woken by closeInFlight rather than by the executor
